@@ -16,12 +16,14 @@ InScope(ev, older, newer) ==
     /\ ~(ev.k = "recv" /\ ev.cmd = C_INTERNAL /\ ev.t = I_VERSION)             \* would switch the protocol itself
     /\ ~(ev.k = "recv" /\ ev.cmd = C_PRESENTATION /\ ev.n = 0 /\ ev.c = SysChild)
 IsMissingOut(o) == o.k = "err" /\ o.cls \in {"MissingNode", "MissingChild"}
+RefusedPayload(o) == o.k = "err" /\ o.cls = "InvalidMessage"
 (* the one exception of C19: a heartbeat response of a KNOWN node marks it as sleeping and releases its  *)
 (* commands in 2.0 / 2.1 but not in 2.2 - from there on the two runs legitimately differ.  A heartbeat  *)
 (* response from an unknown node must still be refused identically.                                      *)
 HeartbeatException(ev, x, y, older, newer) ==
     /\ ev.k = "recv" /\ ev.cmd = C_INTERNAL /\ ev.t = I_HEARTBEAT_RESPONSE /\ newer = "2.2" /\ older # "2.2"
     /\ ~IsMissingOut(x.out) /\ ~IsMissingOut(y.out)      \* the node is known: the sleeping flag may differ from here on
+    /\ ~(RefusedPayload(x.out) /\ y.out.k = "yield") /\ ~(RefusedPayload(y.out) /\ x.out.k = "yield")   \* (one payload, one judgement)
                                                           \* (also when the payload was unusable: 5.3, the flag may be set already)
 
 A(i) == Runs[rid].a[i]
